@@ -38,9 +38,10 @@ def check(chk, facts):
     rule = "C14.CANERR"
     f = get_fn(chk, facts, rule, FN)
     r = facts.adts.get(KIND)
-    if f is None or r is None:
-        if r is None:
-            chk.lost(rule, KIND)
+    if f is None:
+        return
+    if r is None:
+        chk.lost(rule, KIND)
         return
     ev = hom.arm_events(facts, f, "tpe::residual::ResidualKind", lambda c, t: None)
     if ev is None:
